@@ -39,8 +39,17 @@ func genC10(r *vc.Rand) *C10Scn {
 		switch r.Intn(7) {
 		case 4, 5, 6: // the user changes his mind (or shuts down) exactly while the dial is being established
 			kind := vc.Pick(r, []string{"unregister", "unregister", "cancel", "shutdown"})
-			sc.Ops = append(sc.Ops, c10Op{Kind: "peer-register", T: t, Gap: ms(200)}, c10Op{Kind: "register", T: t},
-				c10Op{Kind: kind, T: t, Gap: ms(2500), AtDial: true, DelayUs: vc.Pick(r, []int{0, 0, 20, 50, 100, 150, 200, 300, 400, 600, 1000, 2000})})
+			delays := []int{0, 0, 20, 50, 100, 150, 200, 300, 400, 600, 1000, 2000}
+			sc.Ops = append(sc.Ops, c10Op{Kind: "peer-register", T: t, Gap: ms(200)})
+			if kind != "shutdown" {
+				// several rounds: every register starts a new delayed dial, the user withdraws while it is established
+				for k := 0; k < 3; k++ {
+					sc.Ops = append(sc.Ops, c10Op{Kind: "register", T: t},
+						c10Op{Kind: vc.Pick(r, []string{"unregister", "unregister", "cancel"}), T: t, Gap: ms(700), AtDial: true, DelayUs: vc.Pick(r, delays)})
+				}
+			}
+			sc.Ops = append(sc.Ops, c10Op{Kind: "register", T: t},
+				c10Op{Kind: kind, T: t, Gap: ms(2500), AtDial: true, DelayUs: vc.Pick(r, delays)})
 			if kind == "shutdown" {
 				return sc
 			}
